@@ -1,0 +1,41 @@
+//go:build verif
+
+package rewriter
+
+import (
+	"io/fs"
+	"os"
+	"path/filepath"
+)
+
+// verifStage1Done is a verification hook (build tag "verif").
+// When COVERIF_STAGE1_DIR is set, the unoptimised stage-1 tree
+// (which production code deletes) is copied there before the
+// optimise stage runs, so both artefacts can be executed and compared.
+func verifStage1Done(stage1Dir string) {
+	dst := os.Getenv("COVERIF_STAGE1_DIR")
+	if dst == "" {
+		return
+	}
+	err := filepath.WalkDir(stage1Dir, func(path string, d fs.DirEntry, err error) error {
+		if err != nil {
+			return err
+		}
+		rel, err := filepath.Rel(stage1Dir, path)
+		if err != nil {
+			return err
+		}
+		to := filepath.Join(dst, rel)
+		if d.IsDir() {
+			return os.MkdirAll(to, 0o755)
+		}
+		bs, err := os.ReadFile(path)
+		if err != nil {
+			return err
+		}
+		return os.WriteFile(to, bs, 0o644)
+	})
+	if err != nil {
+		panic(err)
+	}
+}
